@@ -25,7 +25,8 @@ def extra_events():
                       "set-empty", "getitem-empty", "setitem", "getitem", "delitem", "getitem-miss", "set-none", "get-none",
                       "set-2char", "get-2char", "get-2byte", "gets-kwdefaults-miss", "gats-kwdefaults-miss", "incr-kwkey",
                       "append-exp-flags", "prepend-exp-flags", "set-tupleval", "get-tuple-default", "set-prefix-alias", "get-prefix-alias",
-                      "get-many-prefix-alias", "delete-many-absent-first")]
+                      "get-many-prefix-alias", "delete-many-absent-first",
+                      "set-flags0", "add-flags0", "replace-flags0", "setmany-flags0", "cas-flags0", "get-flags0")]
 
 
 def configs(tier, rnd):
